@@ -58,6 +58,11 @@ func runC07(cfg *config) *Report {
 						return ""
 					}
 					return strconv.Itoa(j)
+				case 3: // a small number supplied for the first item, the others blank (the builder goes on from it)
+					if j == 0 {
+						return strconv.Itoa(2 + r.Intn(3))
+					}
+					return ""
 				case 4: // supplied zero-filled, eight and above (a leading zero must not change the base)
 					if r.Intn(4) == 0 {
 						return ""
@@ -131,6 +136,22 @@ func runC07(cfg *config) *Report {
 				}
 			}
 		}
+		intent := ""
+		if (i/8)%2 == 1 && mode != 7 {
+			// the bundles assembled the way a caller does it: every item handed to the bundle's Add method with the number
+			// (or the blank) it carries at that moment.  What the model builds is the caller's intent, dumped before.
+			intent = dumpFile(f)
+			for _, b := range cl.Bundles {
+				cds, rds := b.Checks, b.Returns
+				b.Checks, b.Returns = nil, nil
+				for _, cd := range cds {
+					b.AddCheckDetail(cd)
+				}
+				for _, rd := range rds {
+					b.AddReturnDetail(rd)
+				}
+			}
+		}
 		if mode == 7 {
 			// second build after the caller renumbered the items of a built cash letter: the addenda follow
 			setFRB(true)
@@ -150,6 +171,9 @@ func runC07(cfg *config) *Report {
 			}
 		}
 		before := dumpFile(f)
+		if intent != "" {
+			before = intent
+		}
 		var twin *icl.File
 		if mode != 7 && len(concTwins) < 96 {
 			twin = deepCopyFile(f)
